@@ -78,9 +78,16 @@ func (f *Frame) evalArgs(st *State, fn *types.Func, call *ast.CallExpr) ([]Term,
 	if sig.Recv() != nil {
 		sel := ast.Unparen(call.Fun).(*ast.SelectorExpr)
 		recvT = f.typeOf(sel.X)
-		rv := f.expr(st, sel.X)
+		var rv Term
+		_, ptrRecv := sig.Recv().Type().Underlying().(*types.Pointer)
+		_, ptrX := recvT.Underlying().(*types.Pointer)
+		if r, ok := f.opaqueVarAddr(st, sel.X); ok && ptrRecv && !ptrX {
+			rv = r // x.M() with pointer receiver on an addressable external struct variable: (&x).M()
+		} else {
+			rv = f.expr(st, sel.X)
+		}
 		// implicit address-of / deref is not supported for value receivers
-		if _, ok := sig.Recv().Type().Underlying().(*types.Pointer); ok {
+		if ptrRecv {
 			f.safeRecv(st, rv, fn, call)
 		}
 		args = append(args, rv)
@@ -833,6 +840,9 @@ func (f *Frame) vsCall(st *State, name string, call *ast.CallExpr) []Term {
 		switch at.Underlying().(type) {
 		case *types.Pointer, *types.Map:
 			return []Term{And(vc.isAlloc(st, v), vc.hasType(v, at))}
+		case *types.Interface:
+			// an interface value holding a live object (not nil, not a typed nil pointer)
+			return []Term{vc.isAlloc(st, IRef(v))}
 		}
 		return []Term{vc.isAlloc(st, v)}
 	case "Itoa":
@@ -1056,9 +1066,16 @@ func (f *Frame) ifaceCall(st *State, fn *types.Func, call *ast.CallExpr) []Term 
 		}
 		return f.callByContract(st, fi, args, f.tsub, call.Pos())
 	}
+	if fn.Pkg() != nil && vc.prog.PurePkgs[fn.Pkg().Path()] {
+		// interface method of a package declared pure: an uninterpreted function of receiver and arguments
+		args := []Term{recv}
+		sig := fn.Type().(*types.Signature)
+		for i, a := range call.Args {
+			args = append(args, f.convert(f.expr(st, a), f.typeOf(a), sig.Params().At(i).Type()))
+		}
+		return []Term{f.uf(vc.prog.funcInfo(fn), args)}
+	}
 	impls := f.implsOf(fn)
-	var names []string
-	_ = names
 	if len(impls) == 0 {
 		vc.fail(call.Pos(), "interface call %s: no implementation found and no contract on the interface method", fn.Name())
 	}
